@@ -34,10 +34,10 @@ struct Out {
     sample: Value,
 }
 
-fn one_config(i: usize, seed: u64, reps: usize, thorough: bool) -> Out {
+fn one_config(i: usize, seed: u64, reps: usize, thorough: bool, big: bool) -> Out {
     let mut rng = ChaCha8Rng::seed_from_u64(seed ^ 0xc09 ^ (i as u64).wrapping_mul(0x9e3779b97f4a7c15));
-    let n = 2 + i % 3;
-    let ands = if thorough && i % 17 == 0 { 1001 } else if i % 3 == 1 { (i * 7 + seed as usize) % 101 } else { [0usize, 1, 2, 3, 6, 10, 13, 26][i % 8] };
+    let n = if big { 2 + i % 2 } else { 2 + i % 3 };
+    let ands = if big { 2100 + (i % 3) * 450 } else if thorough && i % 17 == 0 { 1001 } else if i % 3 == 1 { (i * 7 + seed as usize) % 101 } else { [0usize, 1, 2, 3, 6, 10, 13, 26][i % 8] };
     let mut cfg = circ::random_gen_cfg(&mut rng, n, ands);
     if ands > 500 { cfg.others = 50; cfg.extra_regs = 30; cfg.reuse_pct = 50; }
     // wide circuits: thousands of registers (message vectors are sized by max_reg_count) and many outputs
@@ -69,6 +69,11 @@ fn one_config(i: usize, seed: u64, reps: usize, thorough: bool) -> Out {
         case.tmp = tmp.clone();
         case.keep_bytes = false;
         case = case.with_sched(SchedKind::RoundRobin, 0);
+        // the last execution runs under a perturbed wall clock: the sender stalls in real time after
+        // larger sends (message boundaries must not depend on elapsed time)
+        if r + 1 == reps {
+            case.stall_after_send = Some(if big { (64 << 10, 120_000) } else { (4 << 10, 1_000) });
+        }
         let ex = exec_mpc(case);
         if let RunEnd::HarnessError(e) = &ex.end {
             return Out { key, runs: r, msgs, ops, harness: Some(e.clone()), violation: None, sample };
@@ -110,10 +115,11 @@ fn one_config(i: usize, seed: u64, reps: usize, thorough: bool) -> Out {
 pub fn run(tier: &str, seed: u64) -> i32 {
     let thorough = tier == "thorough";
     let mut rep = Report::new("C09", tier, seed, "exploration");
-    rep.rule = "per public configuration (circuit, n, evaluator, output set, temp-file mask) R executions with inputs all-0, all-1 and random and fresh coins under one fixed schedule; per (party, peer) the sequence of (direction, byte length) must be identical. distinct = configuration; non-trivial = at least two executions with different inputs were compared".into();
-    rep.assumptions = vec!["fixed round-robin schedule with immediate delivery so that the per-party operation order is a function of the code path only".into(), "timing is not observed".into()];
+    rep.rule = "per public configuration (circuit, n, evaluator, output set, temp-file mask) R executions with inputs all-0, all-1 and random and fresh coins under one fixed schedule; per (party, peer) the sequence of (direction, byte length) must be identical; the last execution of every configuration runs under a perturbed wall clock (the sender stalls 1 ms of real time after every send of 4 KiB or more; for two (thorough: six) configurations with 2100..3000 AND gates 120 ms after every send of 64 KiB or more). distinct = configuration; non-trivial = at least two executions with different inputs were compared".into();
+    rep.assumptions = vec!["fixed round-robin schedule with immediate delivery so that the per-party operation order is a function of the code path only".into(), "timing itself is not observed; dependence of message boundaries on elapsed time is probed by the stalls only".into()];
     let (n_cfg, reps) = if thorough { (500, 12) } else { (120, 6) };
-    let outs = parallel_for(n_cfg, threads(), |i| one_config(i, seed, reps, thorough));
+    let n_big = if thorough { 6 } else { 2 };
+    let outs = parallel_for(n_cfg + n_big, threads(), |i| if i < n_cfg { one_config(i, seed, reps, thorough, false) } else { one_config(i - n_cfg + (seed as usize % 6), seed, 3, thorough, true) });
     for o in outs {
         rep.evaluations += o.runs as u64;
         rep.add("messages_observed", o.msgs as u64);
